@@ -58,6 +58,10 @@ Spec == Init /\ [][Next]_vars
    output is an action property (TLC evaluates those on every generated
    transition, also when the successor state was seen before). *)
 
+\* the sender cuts every data length, 0 included, into at least one message (length 0: exactly one "empty")
+ASSUME CutNonEmpty == \A T \in Transfers : /\ NumMsgs(T) >= 1
+                                          /\ (T.len = 0 => NumMsgs(T) = 1 /\ ChunkSeq(T)[1].k = "empty")
+
 \* C12 on the model: for consistent transfers the detailed receiver does what the property layer expects
 PropertyHolds ==
   [][(Consistent /\ act'.a = "recv") =>
